@@ -90,7 +90,7 @@ func (e *kvElection) validationLoop(ctx context.Context) {
 func (e *kvElection) handleValidationFailure(err error) {
 	log := e.getLogger()
 	log.Error("demoting_due_to_validation_failure",
-		append(e.logWithContext(e.ctx),
+		append(e.logWithContext(e.electionContext()),
 			zap.Error(err),
 			zap.String("error_type", classifyErrorType(err)),
 		)...,
@@ -107,7 +107,7 @@ func (e *kvElection) handleValidationFailure(err error) {
 
 	if onDemote != nil {
 		log.Info("leader_demoted",
-			append(e.logWithContext(e.ctx),
+			append(e.logWithContext(e.electionContext()),
 				zap.String("reason", "token_validation_failure"),
 			)...,
 		)
